@@ -1032,6 +1032,8 @@ class Part(object):
             raise InvalidTimePointException(
                 "TimePoints should have non-negative integer values"
             )
+        # the cached number of staves may no longer be valid
+        self._number_of_staves = None
         if start is not None:
             self.get_or_add_point(start).add_starting_object(o)
         if end is not None:
@@ -1051,6 +1053,8 @@ class Part(object):
             object, or both. Defaults to 'both'.
 
         """
+        # the cached number of staves may no longer be valid
+        self._number_of_staves = None
 
         if which in ("start", "both") and o.start:
             try:
